@@ -4,6 +4,7 @@ import (
 	"context"
 	"errors"
 	"fmt"
+	"io"
 	"runtime"
 	"strings"
 	"sync"
@@ -105,9 +106,11 @@ type Scenario struct {
 	Clean       bool      `json:"clean,omitempty"` // CONNECT with clean session
 	Chunk       int       `json:"chunk,omitempty"`
 	LateWriteOK bool      `json:"late_write_ok,omitempty"`
-	SlowReturn  int       `json:"slow_return,omitempty"` // transport Write returns late (see memnet.Conn.SlowReturn)
-	Pre         []Step    `json:"pre,omitempty"`         // submitted before Connect
-	Steps       []Step    `json:"steps,omitempty"`       // submitted after Connect returned
+	SlowReturn  int       `json:"slow_return,omitempty"`  // transport Write returns late (see memnet.Conn.SlowReturn)
+	CloseStyle  string    `json:"close_style,omitempty"`  // error after a local Close: "" memnet's own, "pipe" io.ErrClosedPipe (net.Pipe), "net" *net.OpError{net.ErrClosed} (TCP)
+	CloseLinger int       `json:"close_linger,omitempty"` // transport Close returns late (see memnet.Conn.CloseLinger)
+	Pre         []Step    `json:"pre,omitempty"`          // submitted before Connect
+	Steps       []Step    `json:"steps,omitempty"`        // submitted after Connect returned
 	Faults      []Fault   `json:"faults,omitempty"`
 	DialFail    []int     `json:"dial_fail,omitempty"` // 1-based dial attempts that fail
 	OnConnect   [][]InMsg `json:"on_connect,omitempty"`
@@ -283,6 +286,13 @@ func (d *Dialer) DialContext(ctx context.Context) (*mqtt.BaseClient, error) {
 	conn.Chunk = r.Sc.Chunk
 	conn.LateWriteOK = r.Sc.LateWriteOK
 	conn.SlowReturn = r.Sc.SlowReturn
+	conn.CloseLinger = r.Sc.CloseLinger
+	switch r.Sc.CloseStyle {
+	case "pipe":
+		conn.ClosedErr = io.ErrClosedPipe
+	case "net":
+		conn.ClosedErr = memnet.NetClosedErr
+	}
 	cli := &mqtt.BaseClient{Transport: conn}
 	tr.Mu.Lock()
 	if r.Clients == nil {
